@@ -42,6 +42,16 @@ class RegFn(VB.Fn):
         self.wstate = None            # inside the while body: (state keys, coq terms)
 
     # ------------------------------------------------------------------ expressions
+    def ex(self, n, env):
+        # -1.0 * M for a matrix that is an attribute / a local (vinebuildgen.Fn knows it for temporaries only)
+        if isinstance(n, ast.BinOp) and isinstance(n.op, ast.Mult) and ast.unparse(n.left) == '-1.0':
+            b = self.ex(n.right, env)
+            if b.ty in ('mat', 'matref'):
+                m = self.curmat(b, env) if self.matkey(b) else b
+                return V('mat', f'(mat_neg {m.term})', key=None)
+            raise Unsupported('binary operator: ' + src(n))
+        return VB.Fn.ex(self, n, env)
+
     def subscript(self, n, env):
         # list(S)[i] of a set that iterates in ascending order
         if isinstance(n.value, ast.Call) and isinstance(n.value.func, ast.Name) and n.value.func.id == 'list' and 'list' not in env:
